@@ -920,7 +920,13 @@ def sandeel_run(case, seed, drv=None, inject=None, ibm=None, state=None):
     g.grid = Obj(i0=0, j0=0)
     f = env.forcing()
     f.forcing = Obj(temp=np.full((1, 32, 32), 7.0))
-    before = dict(z=state.Z.copy(), active=state.active.copy(), stage=state["stage"].copy())
+    if case.get("btemp_lin") is not None:
+        # optional: bottom temperature a + bx*i + cy*j in cell (i, j) instead of 7 degrees everywhere
+        a_, bx_, cy_ = case["btemp_lin"]
+        jj, ii = np.meshgrid(np.arange(32), np.arange(32), indexing="ij")
+        f.forcing = Obj(temp=(a_ + bx_ * ii + cy_ * jj)[None, :, :].astype(float))
+    before = dict(z=state.Z.copy(), active=state.active.copy(), stage=state["stage"].copy(),
+                  hatch=state["hatch_rate"].copy())
     masks = {}
     orig_vd = ibm.vertical_diffuse
 
@@ -934,16 +940,18 @@ def sandeel_run(case, seed, drv=None, inject=None, ibm=None, state=None):
             ibm.update_ibm(g, state, f)
     finally:
         ibm.vertical_diffuse = orig_vd
-    after = dict(z=state.Z.copy(), active=state.active.copy(), stage=state["stage"].copy())
+    after = dict(z=state.Z.copy(), active=state.active.copy(), stage=state["stage"].copy(),
+                 hatch=state["hatch_rate"].copy())
     a = masks.get("a", before["active"] != 0)
-    expected = [("normal", (int(a.sum()),))]
+    nh = int((before["hatch"] == 0).sum())           # particles whose hatch rate is drawn in this update
+    expected = ([("rand", (nh,))] if nh else []) + [("normal", (int(a.sum()),))]
     got = rec.schedule()
     res = dict(before=before, after=after, model=None, sched=(expected, got), meta={}, n=n, state=state, ibm=ibm)
     H = env.depth(case["x"], case["y"])
     res["meta"]["H"] = H
     xi = np.zeros(n)
     if expected == got:
-        xi[a] = rec.log[0][3]
+        xi[a] = rec.log[-1][3]
     res["xi"] = xi
     res["mask_active"] = a
     if drv is not None and expected == got:
